@@ -57,10 +57,11 @@ Definition min_rep (w : Z) : Z := if w =? 32 then min32 else min64.
 Definition cx64 (x : Z) : out Z := if in64 x then Val x else IllFormed.
 Definition ck64 (x : Z) : out Z := if in64 x then Val x else Ub SignedOverflow.
 Definition ck_rep (w x : Z) : out Z := if in_rep w x then Val x else Ub SignedOverflow.
+(* (the quotient by 1 is written out so that the extracted model does not run a long division for it) *)
 Definition div_rep (w a b : Z) : out Z :=
   if b =? 0 then Ub DivByZero
   else if (a =? min_rep w) && (b =? -1) then Ub SignedOverflow
-  else Val (Z.quot a b).
+  else Val (if b =? 1 then a else Z.quot a b).
 Definition rem_rep (w a b : Z) : out Z :=
   if b =? 0 then Ub DivByZero
   else if (a =? min_rep w) && (b =? -1) then Ub SignedOverflow
@@ -95,17 +96,26 @@ Definition sign_m (v : Z) : Z := if v <? 0 then -1 else 1.
 (* ratio<Num, Denom>::num / ::den *)
 Definition ratio_m (num den : Z) : out (Z * Z) :=
   do g <- gcd_m num den;
-  if g =? 0 then IllFormed
+  if (den =? 0) || (g =? 0) then IllFormed        (* static_assert(Denom != 0) *)
   else
     do an <- cx64 (Z.abs num);
     do ad <- cx64 (Z.abs den);
     Val (Z.quot (sign_m num * sign_m den * an) g, Z.quot ad g).
 
-(* ratio_divide<R1, R2> = ratio<R1::num * R2::den, R1::den * R2::num> *)
+(* ratio_divide<R1, R2> = detail::ratio_divide_impl<R1, R2>::type:
+     static_assert(R2::num != 0);
+     g1 = gcd(R1::num, R2::num);  g2 = gcd(R2::den, R1::den);
+     ratio<(R1::num / g1) * (R2::den / g2), (R1::den / g2) * (R2::num / g1)>::type *)
 Definition ratio_divide_m (r1 r2 : Z * Z) : out (Z * Z) :=
-  do a <- cx64 (fst r1 * snd r2);
-  do b <- cx64 (snd r1 * fst r2);
-  ratio_m a b.
+  if fst r2 =? 0 then IllFormed
+  else
+    do g1 <- gcd_m (fst r1) (fst r2);
+    do g2 <- gcd_m (snd r2) (snd r1);
+    if (g1 =? 0) || (g2 =? 0) then IllFormed
+    else
+      do a <- cx64 (Z.quot (fst r1) g1 * Z.quot (snd r2) g2);
+      do b <- cx64 (Z.quot (snd r1) g2 * Z.quot (fst r2) g1);
+      ratio_m a b.
 
 (** * duration types *)
 (* duration<Rep, Period>: width of Rep and the members Period::num, Period::den *)
@@ -146,24 +156,44 @@ Definition duration_cast_m (from to : dty) : Z -> out Z :=
 (* same C++ type: the defaulted copy constructor is used and ratio_divide is never instantiated *)
 Definition same_ty (a b : dty) : bool := (rw a =? rw b) && (pn a =? pn b) && (pd a =? pd b).
 
-(* whether the converting constructor duration(duration<Rep2,Period2> const&) participates *)
+(* detail::period_quotient<From, To>::integral: the conversion factor From/To is representable
+   (decided on the cross-cancelled factors, no overflow possible) and a whole number *)
+Definition period_quotient_integral_m (from to : dty) : out bool :=
+  do g1 <- gcd_m (pn from) (pn to);
+  do g2 <- gcd_m (pd from) (pd to);
+  if (g1 =? 0) || (g2 =? 0) then IllFormed
+  else
+    let q1 := Z.quot (pn from) g1 in
+    let q2 := Z.quot (pd to) g2 in
+    let e1 := Z.quot (pd from) g2 in
+    let e2 := Z.quot (pn to) g1 in
+    if (q2 =? 0) || (e2 =? 0) then IllFormed
+    else
+      let representable := (q1 <=? Z.quot max64 q2) && (e1 <=? Z.quot max64 e2) in
+      Val (representable && (e1 =? 1) && (e2 =? 1)).
+
+(* whether the converting constructor duration(duration<Rep2,Period2> const&) participates
+   (integer representations: the period_quotient<Period2, period>::integral disjunct) *)
 Definition convertible_m (from to : dty) : out bool :=
-  if same_ty from to then Val true
-  else do cf <- ratio_divide_m (pn from, pd from) (pn to, pd to); Val (snd cf =? 1).
+  if same_ty from to then Val true else period_quotient_integral_m from to.
 
 (* converting constructor:
    static_cast<Rep>(static_cast<CR>(other.count()) * ratio_divide<Period2, period>::num
-                    / ratio_divide<Period2, period>::den),  CR = intmax_t;
-   for integer representations the requires-clause forces den == 1 *)
+                    / ratio_divide<Period2, period>::den),  CR = intmax_t *)
 Definition conv_m (from to : dty) : Z -> out Z :=
   let same := same_ty from to in
+  let ok := period_quotient_integral_m from to in
   let cf := ratio_divide_m (pn from, pd from) (pn to, pd to) in
   fun c =>
     if same then Val c
     else
-      do cf' <- cf;
-      if negb (snd cf' =? 1) then IllFormed
-      else do p <- ck64 (c * fst cf'); Val (wrap_rep (rw to) p).   (* "/ den" with den == 1 *)
+      do ok' <- ok;
+      if negb ok' then IllFormed
+      else
+        do cf' <- cf;
+        do p <- ck64 (c * fst cf');
+        do q <- div_rep 64 p (snd cf');
+        Val (wrap_rep (rw to) q).
 
 (* CD(lhs).count(), CD(rhs).count() for CD = the common type *)
 Definition to_common_m (a b : dty) : Z -> Z -> out (dty * Z * Z) :=
